@@ -11,7 +11,7 @@ from hv.gen.rawfile import raw_case
 from hv.model.raw import complete_rows
 
 ID = "C01"
-RULE = ("G-raw file sets: 1-4 ranks, .json/.json.gz per rank, first entry a host operator, then 0-14 entries in arbitrary order: "
+RULE = ("G-raw file sets: 1-4 ranks (one case in eight: 9 ranks, where the pooled loader sizes its pool by memory profiling), .json/.json.gz per rank, first entry a host operator, then 0-14 entries in arbitrary order: "
         "complete events (host and device, args with/without stream and correlation, string-valued streams, unknown args), "
         "metadata M, flow s/f (ac2g, fwdbwd), instant, counter, the 'Trace' span with string pid/tid, entries with a category but "
         "no duration, a duration but no category, or a null duration; integer or fractional stamps; epoch 0 .. 1.7e15; "
@@ -128,6 +128,8 @@ def check(case: Dict[str, Any]) -> CaseInfo:
         classes.append("fractional")
     if len(case["ranks"]) >= 2:
         classes.append("multi_rank")
+    if len(case["ranks"]) > 8:
+        classes.append("more_than_8_ranks")
     if case.get("mp") or mode in ("analysis", "dir"):
         classes.append("multiprocessing")
     if any(r.ts != ts for exp in expected.values() for r, ts, _, _ in exp.values()):
@@ -163,7 +165,7 @@ def campaigns(tier: str) -> List[Campaign]:
         Campaign("raw_files", raw_case(), check, quick=640, thorough=32000, quick_shards=8,
                  required_classes={"fractional": 0.3, "multi_rank": 0.4, "kind:M:": 0.25, "kind:X:Trace": 0.1, "kind:X:incomplete": 0.1,
                                    "mode:parse": 0.1, "mode:load": 0.15, "mode:analysis": 0.12, "rounding_changes_a_stamp": 0.15,
-                                   "multiprocessing": 0.2},
+                                   "multiprocessing": 0.2, "more_than_8_ranks": 0.025},
                  sample_view=view),
         Campaign("sim_files", sim_load_case(), check, quick=160, thorough=8000, quick_shards=8, sample_view=view),
     ]
